@@ -71,7 +71,7 @@ SEL_MM_R = [(MM, r'(rfind|rfind_iter|FinderRev::.*|FinderBuilder::build_reverse)
 
 SEL_GLUE_S = [(PRE, r'(searcher_kind_.*|Searcher::.*)')]
 SEL_GLUE_P = [(PRE, r'(prefilter_kind_.*|Prefilter::.*|Pre::.*|PrefilterState::.*|do_packed_search)')]
-SEL_SUB_F = SEL_RK_F + SEL_PP_FIND + SEL_PP_PRE + SEL_TW_F + SEL_GLUE_S + SEL_GLUE_P + SEL_C01
+SEL_SUB_F = SEL_RK_F + SEL_PP_FIND + SEL_PP_PRE + SEL_TW_F + SEL_GLUE_S + SEL_GLUE_P + SEL_C01 + [(APP, r'(Pair::.*|Finder::(new|with_pair|pair))')]
 SEL_SUB_R = SEL_RK_R + SEL_TW_R + SEL_C02
 
 A_GLUE = 'A2b rule X15 (defunctionalisation): the fn-pointer types SearcherKindFn/PrefilterKindFn are rewritten into enums of the fn items of the file and the call through the pointer into a match (closed world of values; the rewrite is mechanical and trusted); with it Searcher::{new,twoway,find} and Prefilter::{fallback,sse2,avx2,find} are VERIFIED; derived Clone of Searcher/SearcherRev is assumed to copy (r == *self)'
